@@ -28,6 +28,37 @@ fn params(p: &Params) -> String {
     let dbg: Vec<String> = p.iter().map(|g| g.iter().map(|v| v.to_string()).collect::<Vec<_>>().join(":")).collect();
     assert_eq!(format!("{p:?}"), format!("[{}]", dbg.join(";")), "Debug for Params");
     assert!(p.clone() == *p, "Clone / PartialEq for Params");
+    // ParamsIter is an Iterator whose every other method is the provided one, i.e. defined by `next`:
+    // positional / consuming adaptors must agree with stepping, from every cursor position, and none may panic
+    let raw: Vec<Vec<u16>> = p.iter().map(|g| g.to_vec()).collect();
+    for k in 0..=raw.len() + 2 {
+        assert_eq!(p.iter().nth(k).map(|g| g.to_vec()), raw.get(k).cloned(), "ParamsIter::nth({k})");
+        let skipped: Vec<Vec<u16>> = p.iter().skip(k).map(|g| g.to_vec()).collect();
+        assert_eq!(skipped, raw.iter().skip(k).cloned().collect::<Vec<_>>(), "ParamsIter::skip({k})");
+        let at = |k: usize| {
+            let mut it = p.iter();
+            for _ in 0..k {
+                it.next();
+            }
+            it
+        };
+        let left = raw.len().saturating_sub(k);
+        let left_values: usize = raw.iter().skip(k).map(|g| g.len()).sum();
+        // (upstream reports the number of remaining VALUES as both bounds; the lower bound therefore exceeds the
+        // number of groups still to come when a group has sub-parameters -- noted in DESIGN.md, outside every property)
+        let (_lo, hi) = at(k).size_hint();
+        assert!(hi == Some(left_values), "ParamsIter::size_hint after {k} steps");
+        assert_eq!(at(k).count(), left, "ParamsIter::count after {k} steps");
+        assert_eq!(at(k).last().map(|g| g.to_vec()), if left > 0 { raw.last().cloned() } else { None }, "ParamsIter::last after {k} steps");
+        assert_eq!(at(k).fold(0usize, |a, g| a + g.len()), left_values, "ParamsIter::fold after {k} steps");
+        let mut by_nth = at(k);
+        let far = by_nth.nth(raw.len() + 1);
+        assert!(far.is_none(), "ParamsIter::nth past the end");
+        let _ = by_nth.size_hint();
+        assert!(by_nth.next().is_none(), "ParamsIter exhausted by nth stays exhausted");
+        let stepped: Vec<Vec<u16>> = at(k).step_by(2).map(|g| g.to_vec()).collect();
+        assert_eq!(stepped, raw.iter().skip(k).step_by(2).cloned().collect::<Vec<_>>(), "ParamsIter::step_by(2) after {k} steps");
+    }
     format!("{}:{}", groups.len(), groups.join(";"))
 }
 
